@@ -285,15 +285,17 @@ static int ex_search(char **pat)
 #define EX_NOADDR	(-(1 << 28))	/* an address that does not resolve */
 
 /* read a number; saturated, so that huge addresses stay out of range */
-static int ex_num(char *s)
+static long ex_num(char *s)
 {
 	long n = strtol(s, NULL, 10);
-	return n > 100000000 ? 100000000 : (n < -100000000 ? -100000000 : n);
+	long max = 1000000000000000l;	/* the sum of all terms of a command line fits a long */
+	return n > max ? max : (n < -max ? -max : n);
 }
 
 static int ex_lineno(char **num)
 {
-	int n = xrow;
+	long n = xrow;		/* wide, so that huge numbers and offsets do not wrap */
+	int mark;
 	switch ((unsigned char) **num) {
 	case '.':
 		++*num;
@@ -303,8 +305,9 @@ static int ex_lineno(char **num)
 		++*num;
 		break;
 	case '\'':
-		if (lbuf_jump(xb, (unsigned char) *++(*num), &n, NULL))
+		if (lbuf_jump(xb, (unsigned char) *++(*num), &mark, NULL))
 			return EX_NOADDR;
+		n = mark;
 		++*num;
 		break;
 	case '/':
@@ -324,7 +327,7 @@ static int ex_lineno(char **num)
 		while (isdigit((unsigned char) **num))
 			(*num)++;
 	}
-	return n;
+	return n > 1000000000 ? 1000000000 : (n < EX_NOADDR ? EX_NOADDR : n);
 }
 
 /* parse ex command addresses */
